@@ -113,6 +113,9 @@ func runGts(w *simos.World, argv []string, spec simos.ProcSpec) (res procResult)
 	if p.Crashed {
 		res.Killed = true
 		status = 137
+		if p.Signalled == "SIGPIPE" {
+			status = 141
+		}
 	}
 	res.Status = status
 	res.Ops = p.Ops
